@@ -67,6 +67,24 @@ Theorem C09_unmatched_url_unlimited : forall h now lims matches i,
 Proof. exact handle_unmatched. Qed.
 Print Assumptions C09_unmatched_url_unlimited.
 
+(** what "matches a rule" means (urlrule.URLRule.Match): method in the list (or no list) and
+    path = exact, or path starts with prefix, or the regexp matches - every configured
+    alternative counts; and a request matching no rule under THAT meaning is never limited *)
+Theorem C09_url_rule_match_spec : forall u m p rx,
+  url_match u m p rx = true <->
+  (fu_methods u = [] \/ In m (fu_methods u)) /\
+  ((fu_exact u <> ""%string /\ p = fu_exact u) \/
+   (fu_prefix u <> ""%string /\ exists rest, p = (fu_prefix u ++ rest)%string) \/
+   (fu_regex u <> ""%string /\ rx = true)).
+Proof. exact url_match_spec. Qed.
+Print Assumptions C09_url_rule_match_spec.
+
+Theorem C09_unmatched_request_unlimited : forall h now lims us m p rxs i,
+  (forall u rx, In (u, rx) (combine us rxs) -> url_match u m p rx = false) ->
+  flt_handle_aux h now lims (match_row us m p rxs) i = (h, FPass 0 None).
+Proof. exact unmatched_request_unlimited. Qed.
+Print Assumptions C09_unmatched_request_unlimited.
+
 (** reloading with an unchanged rule (same URL rule, same policy) keeps the limiter object
     with its accumulated state; no limiter object is modified by the reload and the previous
     generation keeps its references (ideal = without the pinned `prev.rl = nil` defect) *)
